@@ -1,6 +1,9 @@
 // C03 harness: the shared codec harness (h_codec.cpp: ENC / ENC2 / DEC / REENC / RT on the REAL
 // Message::factory and Message::encode, compiled with ASan + UBSan) plus
 //   ATOI <hex>        fast_atoi<int> on the text (standing UB site F09)          -> OK <value>
+//   SEQ <mode> <N|S<byte>|M<hex>> <hex>  prime the stack (nothing / fill it with a byte / decode a message), then
+//                     Message::factory on <hex> from the same frame -> OK <dump> | EXC InvalidMessage arg=<hex of
+//                     the text the exception carries> | EXC ...   (history must not matter)
 //   DTPARSE ts|time|date <hex>  date_time_parse / time_parse / date_parse on the text -> OK
 //   CHKSUM <mis> <hex> Message::calc_chksum on the bytes at a 16-aligned address + mis -> OK <value>
 //                     (this translation unit is compiled WITH -fsanitize=alignment)
@@ -28,8 +31,82 @@
 
 namespace {
 
+// ---- SEQ: history dependence.  Everything happens inside ONE frame (probe), so that the call under
+// test runs at the same stack depth as the priming step and sees whatever that left on the stack.
+__attribute__((noinline)) void spray(int c)
+{
+	volatile char buf[32768];
+	for (size_t ii(0); ii < sizeof(buf); ++ii)
+		buf[ii] = static_cast<char>(c);
+}
+
+struct SeqOut { Message *msg; bool invalid; std::string what; };
+
+__attribute__((noinline)) void probe(int how, const std::string *primer, int spray_chr, const std::string& input,
+	const Mode& md, Message *& primed, SeqOut& out)
+{
+	if (how == 1)
+	{
+		try { primed = Message::factory(mctx(), *primer, md.no_chksum, md.permissive); }
+		catch (std::exception&) {}
+	}
+	else if (how == 2)
+		spray(spray_chr);
+	try
+	{
+		out.msg = Message::factory(mctx(), input, md.no_chksum, md.permissive);	// <<< the call under test
+	}
+	catch (InvalidMessage& e)
+	{
+		out.invalid = true;
+		out.what = e.what();
+	}
+}
+
+// "Invalid FIX Message: <arg> at: <file>:<line>" -> <arg>
+std::string invalid_arg(const std::string& what)
+{
+	static const std::string pre("Invalid FIX Message: ");
+	std::string a(what.compare(0, pre.size(), pre) == 0 ? what.substr(pre.size()) : what);
+	const size_t at(a.rfind(" at: "));
+	if (at != std::string::npos && a.find("message.cpp:", at) != std::string::npos && a.find(' ', at + 5) == std::string::npos)
+		a.erase(at);
+	return a;
+}
+
+void run_seq(const std::string& line, std::ostream& os)
+{
+	// SEQ <mode> <N | S<byte> | M<hex of a message decoded first>> <hex>
+	std::istringstream is(line.substr(4));
+	std::string mode, prime, hx;
+	is >> mode >> prime >> hx;
+	const Mode md(parse_mode(mode));
+	const std::string input(unhex(hx));
+	std::string primer;
+	int how(0), chr(0);
+	if (!prime.empty() && prime[0] == 'M') { how = 1; primer = unhex(prime.substr(1)); }
+	else if (!prime.empty() && prime[0] == 'S') { how = 2; chr = atoi(prime.c_str() + 1); }
+	Message *primed(nullptr);
+	SeqOut out{nullptr, false, std::string()};
+	std::unique_ptr<Message> g1, g2;
+	const bool ok(stage(os, [&] { probe(how, how == 1 ? &primer : nullptr, chr, input, md, primed, out); }));
+	g1.reset(primed);
+	g2.reset(out.msg);
+	if (!ok)
+		return;
+	if (out.invalid)
+		os << "EXC InvalidMessage arg=" << tohex(invalid_arg(out.what));
+	else
+		os << "OK " << dump_msg(out.msg);
+}
+
 void run_case3(const std::string& line, std::ostream& os)
 {
+	if (line.compare(0, 4, "SEQ ") == 0)
+	{
+		run_seq(line, os);
+		return;
+	}
 	if (line.compare(0, 5, "ATOI ") == 0)
 	{
 		const std::string txt(unhex(line.substr(5)));
